@@ -57,7 +57,7 @@ func extractFSM(c *report.Ctx, s fsmSpec) *fsmModel {
 	it := iface.Underlying().(*types.Interface)
 	for i := 0; i < it.NumMethods(); i++ {
 		n := it.Method(i).Name()
-		if !in(n, s.Skip...) {
+		if !oneOf(n, s.Skip...) {
 			m.methods = append(m.methods, n)
 		}
 	}
@@ -386,7 +386,7 @@ func checkFSM(c *report.Ctx, s fsmSpec, m *fsmModel) {
 		}
 	}
 	for st := range refStates {
-		if !in(st, m.states...) {
+		if !oneOf(st, m.states...) {
 			missing = append(missing, st)
 		}
 	}
@@ -468,7 +468,7 @@ func checkFSM(c *report.Ctx, s fsmSpec, m *fsmModel) {
 		okc := n == ownerT+".SetState" || n == coreP+"."+s.Ctor
 		if recv := st.Fn.Signature.Recv(); recv != nil {
 			rn := strings.TrimPrefix(an.TypeName(recv.Type()), coreP+".")
-			if in(rn, m.states...) {
+			if oneOf(rn, m.states...) {
 				okc = true
 			}
 		}
